@@ -323,7 +323,8 @@ pub fn c10(ctx: &mut Ctx, acc: &mut Acc) -> i32 {
 
 fn random_shape(rng: &mut Rng) -> Shape {
     let big = rng.chance(1, 10);
-    let n = 1 + rng.below(if big { 200 } else { 12 }) as usize;
+    // the interpreter is about three orders of magnitude slower: small graphs only there
+    let n = 1 + rng.below(if cfg!(miri) { 6 } else if big { 200 } else { 12 }) as usize;
     let labels: Vec<u32> = (0..n).map(|_| rng.next_u32()).collect();
     let mut edges: Vec<Vec<usize>> = Vec::with_capacity(n);
     for i in 0..n {
